@@ -211,7 +211,9 @@ def run(rep: common.Report, tier: str, seed: int, replay=None) -> int:
                     iJ_ = sol.interp_current_density(Pphys[:, :2], units="A / m", with_units=False)
                     psi_i = np.abs(np.asarray(sol.interp_order_parameter(Pphys[:, :2])))
                     vort = np.asarray(sol.vorticity.to("A / m ** 2").magnitude, dtype=float)
-                    grids[key_] = (np.asarray(gJ_, dtype=float), np.asarray(iJ_, dtype=float), psi_i, vort)
+                    grids[key_] = (np.asarray(gJ_, dtype=float), np.asarray(iJ_, dtype=float), psi_i, vort,
+                                   np.asarray(getattr(gx_, "magnitude", gx_), dtype=float), np.asarray(getattr(gy_, "magnitude", gy_), dtype=float),
+                                   np.array(dev.points, copy=True))
                 except Exception as e:  # noqa: BLE001
                     grids[key_] = f"{type(e).__name__}: {e}"[:160]
                 Atot = np.asarray(sol.vector_potential_at_position(Pphys, units="T * m", return_sum=True, with_units=False))
@@ -268,9 +270,23 @@ def run(rep: common.Report, tier: str, seed: int, replay=None) -> int:
                         rep.violation("grid / interp_current_density works in one unit system and fails in another", {**case, "error": ga if isinstance(ga, str) else gb})
                 elif ga is not None and gb is not None:
                     rep.coverage["postprocessing_outputs_compared"] = rep.coverage.get("postprocessing_outputs_compared", 0) + 4
+                    # grid_current_density interpolates with scipy's griddata, i.e. over Qhull's OWN Delaunay triangulation of the site
+                    # cloud; where four sites are co-circular either diagonal is a Delaunay triangulation and Qhull's choice follows
+                    # the rounding of the scaled coordinates.  The gridded values are therefore compared at the grid points whose
+                    # enclosing triangle is the same triple of sites in both unit systems (the interpolation stencil is then the same)
+                    from scipy.spatial import Delaunay as _Del
+                    tri_a, tri_b = _Del(ga[6]), _Del(gb[6])
+                    set_b = {frozenset(int(v_) for v_ in t_) for t_ in tri_b.simplices}
+                    sa_ = tri_a.find_simplex(np.column_stack([ga[4].ravel(), ga[5].ravel()]))
+                    same_stencil = np.array([k_ >= 0 and frozenset(int(v_) for v_ in tri_a.simplices[k_]) in set_b for k_ in sa_])
+                    rep.coverage["grid_points_compared"] = rep.coverage.get("grid_points_compared", 0) + int(same_stencil.sum())
+                    rep.coverage["grid_points_with_ambiguous_delaunay_stencil"] = \
+                        rep.coverage.get("grid_points_with_ambiguous_delaunay_stencil", 0) + int((~same_stencil & (sa_ >= 0)).sum())
                     for nm_, a_, b_ in (("grid_current_density", ga[0], gb[0]), ("interp_current_density", ga[1], gb[1]),
                                         ("interp_order_parameter (modulus)", ga[2], gb[2]), ("vorticity (A / m^2)", ga[3], gb[3])):
                         okm = np.isfinite(a_) & np.isfinite(b_)
+                        if nm_ == "grid_current_density" and a_.shape == b_.shape and a_.shape[-2:] == ga[4].shape:
+                            okm = okm & np.broadcast_to(same_stencil.reshape(ga[4].shape), a_.shape)
                         if a_.shape != b_.shape or not np.array_equal(np.isfinite(a_), np.isfinite(b_)) or \
                                 np.max(np.abs(a_[okm] - b_[okm])) > 1e-5 * (np.max(np.abs(b_[okm])) + 1e-300):
                             rep.violation(f"Solution.{nm_} (physical units) depends on the unit system the problem was stated in", case)
